@@ -131,7 +131,7 @@ impl<'t, 'd> Pr<'t, 'd> {
             return;
         }
         self.tok(G::NoNl, "(");
-        let broken = args.len() >= 2 && self.opt(|o| o.multiline) && self.tb(16);
+        let broken = !args.is_empty() && self.opt(|o| o.multiline) && self.tb(if args.len() >= 2 { 16 } else { 24 });
         if broken {
             self.indent += 1;
         }
